@@ -133,7 +133,7 @@ func (e *engine) evalReplay(c Case) error {
 	}
 
 	// oracle (a)(b)(c)
-	for _, f := range oracleHistory(res.built, res.pres) {
+	for _, f := range oracleHistory(res.built, res.pres, c.Cfg.Fallback) {
 		rep.Fail(common.OracleFailure{Engine: "replay", Key: f.key, Case: c, Detail: f.detail})
 	}
 	// oracle (d): presentations that fail authentication (and authenticated ones refused for type/timestamp)
@@ -176,10 +176,18 @@ func keys1(m map[int]bool) []int {
 	return ks
 }
 
+// repeatedClass: how a detected replay ends on this server (error, or handed to the fallback)
+func repeatedClass(c Cfg) string {
+	if c.Fallback {
+		return "fallback:repeated"
+	}
+	return "repeated"
+}
+
 // ---------- race engine ----------
 
 func genRaceCase(r *common.Rng) Case {
-	c := Case{Engine: "race", Cfg: Cfg{KeySeed: r.U64(), KeyLen: common.Pick(r, []int{16, 32}), EIH: r.Chance(1, 3), Segmented: r.Chance(1, 4)}}
+	c := Case{Engine: "race", Cfg: Cfg{KeySeed: r.U64(), KeyLen: common.Pick(r, []int{16, 32}), EIH: r.Chance(1, 3), Segmented: r.Chance(1, 4), Fallback: r.Chance(1, 3)}}
 	c.K = common.Pick(r, []int{2, 2, 3, 4, 8, 16})
 	c.Noise = r.Range(0, 6)
 	c.Skew = int64(r.Range(-30, 30))
@@ -230,7 +238,7 @@ func (e *engine) evalRace(c Case) error {
 			go func() {
 				defer wg.Done()
 				<-start
-				verdicts[i], _ = presentBytes(srv, req.Bytes)
+				verdicts[i], _ = presentBytes(srv, req.Bytes, c.Cfg.Fallback)
 			}()
 		}
 		for i := range others {
@@ -238,14 +246,14 @@ func (e *engine) evalRace(c Case) error {
 			go func() {
 				defer wg.Done()
 				<-start
-				noise[i], _ = presentBytes(srv, others[i].Bytes)
+				noise[i], _ = presentBytes(srv, others[i].Bytes, c.Cfg.Fallback)
 			}()
 		}
 		close(start)
 		wg.Wait()
 		time.Sleep(time.Second)
 		if c.Skew < 30 { // still valid one second later
-			again, _ = presentBytes(srv, req.Bytes)
+			again, _ = presentBytes(srv, req.Bytes, c.Cfg.Fallback)
 		}
 	})
 	if runErr != nil {
@@ -278,11 +286,11 @@ func (e *engine) evalRace(c Case) error {
 	// model (theorem concurrent_one_winner): exactly one `accept`, all others `repeated`; afterwards `repeated`.
 	ok := acc == 1
 	for _, v := range verdicts {
-		if v != "accept" && v != "repeated" {
+		if v != "accept" && v != repeatedClass(c.Cfg) {
 			ok = false
 		}
 	}
-	if again != "" && again != "repeated" {
+	if again != "" && again != repeatedClass(c.Cfg) {
 		ok = false
 	}
 	if !ok {
@@ -424,7 +432,7 @@ func (e *engine) evalFlood(c Case) error {
 			return
 		}
 		t1 = time.Now().UnixNano()
-		first, _ = presentBytes(srv, req.Bytes)
+		first, _ = presentBytes(srv, req.Bytes, c.Cfg.Fallback)
 		step := time.Duration(0)
 		if c.N > 0 {
 			step = time.Duration(c.Skew / int64(c.N))
@@ -438,12 +446,12 @@ func (e *engine) evalFlood(c Case) error {
 				runErr = err
 				return
 			}
-			if v, _ := presentBytes(srv, b.Bytes); v != "accept" {
+			if v, _ := presentBytes(srv, b.Bytes, c.Cfg.Fallback); v != "accept" {
 				refused++
 			}
 		}
 		t2 = time.Now().UnixNano()
-		again, _ = presentBytes(srv, req.Bytes)
+		again, _ = presentBytes(srv, req.Bytes, c.Cfg.Fallback)
 	})
 	if runErr != nil {
 		return runErr
@@ -460,7 +468,7 @@ func (e *engine) evalFlood(c Case) error {
 			Detail: fmt.Sprintf("request (timestamp %d) accepted at %d ns and again at %d ns (%.9f s later, timestamp still passes) after %d other accepted handshakes", int64(ts), t1, t2, float64(t2-t1)/1e9, c.N-refused)})
 	}
 	// model (theorem no_double_accept): the second presentation is refused as a repeated salt
-	if first != "accept" || refused > 0 || (tsPasses(ts, t2) && again != "repeated") {
+	if first != "accept" || refused > 0 || (tsPasses(ts, t2) && again != repeatedClass(c.Cfg)) {
 		rep.Diverge(common.Divergence{Engine: "flood", Case: c, Impl: obs, Model: "accept, all others accept, then repeated"})
 	}
 	rep.TracesValidated++
@@ -607,7 +615,11 @@ func (e *engine) evalPool(c Case) error {
 			adds += op.N
 		}
 	}
-	withModel := e.drv != nil && adds <= 2048 // the model's list pool is quadratic; larger floods are oracle-only
+	withModel := e.drv != nil
+	// fills of more than 2048 salts are sent to the model as one `pfill` line (the driver runs them on its fast pool
+	// representation, proved equal to the list model: fast_pool_refines) and compared by the number of true answers;
+	// every other op, before and after, is compared answer by answer.
+	bulk := func(op PoolOp) bool { return op.N > 2048 }
 	var failed bool
 	fail := func(k, d string) {
 		if k != "" && !failed {
@@ -631,14 +643,15 @@ func (e *engine) evalPool(c Case) error {
 					if res {
 						okc++
 					}
-					if withModel {
+					if !bulk(op) {
 						impl = append(impl, b2s(res))
 						lines = append(lines, fmt.Sprintf("padd %d %d", now, op.Salt+i))
 					}
 					fail(orc.add(op.Salt+i, now, res))
 				}
-				if !withModel {
+				if bulk(op) {
 					impl = append(impl, fmt.Sprintf("filled=%d", okc))
+					lines = append(lines, fmt.Sprintf("pfill %d %d %d %d", op.Now, op.Salt, op.N, op.Step))
 				}
 			case "contains":
 				impl = append(impl, b2s(pool.Contains(saltOfID(op.Salt))))
@@ -668,20 +681,24 @@ func (e *engine) evalPool(c Case) error {
 		if err != nil {
 			return err
 		}
+		for i := range out { // the model also reports its pool length after a bulk fill; the implementation cannot
+			if strings.HasPrefix(out[i], "filled=") {
+				out[i], _, _ = strings.Cut(out[i], " ")
+			}
+		}
 		if strings.Join(out, ",") != strings.Join(impl, ",") {
-			e.rep.Diverge(common.Divergence{Engine: "pool", Case: c, Impl: strings.Join(impl, ""), Model: strings.Join(out, "")})
+			e.rep.Diverge(common.Divergence{Engine: "pool", Case: c, Impl: lastN(impl, 12), Model: lastN(out, 12)})
 		}
 		e.rep.TracesValidated++
-	} else if adds > 0 {
-		// model side of a large flood, by theorem (no_double_accept / live_run: nothing but expiry removes a salt):
-		// Contains(1) = true, the second Add(1) = false, the re-Adds of the first and last flood salt = false
-		want := []string{"1", "0", "0", "0"}
-		got := impl[len(impl)-4:]
-		if strings.Join(got, "") != strings.Join(want, "") {
-			e.rep.Diverge(common.Divergence{Engine: "pool", Case: c, Impl: strings.Join(impl, ","), Model: "…,1,0,0,0 (a salt is removed by expiry only)"})
-		}
 	}
 	return nil
+}
+
+func lastN(xs []string, n int) string {
+	if len(xs) > n {
+		return "…," + strings.Join(xs[len(xs)-n:], ",")
+	}
+	return strings.Join(xs, ",")
 }
 
 // ---------- ts engine ----------
@@ -1008,7 +1025,7 @@ func main() {
 	rep.Rule = "replay: histories (<= ~45 ops) of clock advances and presentations of crafted/real/mutated SS2022 TCP requests to a real StreamServer on a synctest fake clock; " +
 		"templates: end-of-validity replays (skew -31..+31 s, instants within 0/1/2 ns and 1 s of the last valid instant), retention edges (t1 + 59/60/61/62 s +-2 ns after a pruning Add), forged-copies-first, random walks over a boundary step alphabet; " +
 		"non-trivial = at least one accept and at least one re-presentation of an accepted request; distinct by (config, op list). " +
-		"race: k in {2,3,4,8,16} concurrent copies + 0..6 unrelated concurrent requests. pool: <= 40 SaltPool ops with non-monotone instants, plus floods: Add(r), N distinct fresh salts (N in 2^10, 2^16-1, 2^16, 2^16+1, 2^17, 3*10^5) inside r's validity span, Add(r) again (model compared up to 2048 Adds, larger floods oracle + theorem). poolrace (child process): k in {2,4,16} goroutines call SaltPool.Add for the same fresh salt 50000 / 10^6 rounds each, re-aligned by a blocking barrier every 32 rounds; the race engine itself also runs in a child process so that a fatal runtime error (concurrent map access) is reported as a failure of that scenario. flood: the same through HandleStream with 2048 (quick) / 70000 (thorough, search) real handshakes on the fake clock. ts: 64 (word, clock) pairs per case over 64-bit boundary alphabets"
+		"race: k in {2,3,4,8,16} concurrent copies + 0..6 unrelated concurrent requests. pool: <= 40 SaltPool ops with non-monotone instants, plus floods: Add(r), N distinct fresh salts (N in 2^10, 2^16-1, 2^16, 2^16+1, 2^17, 3*10^5) inside r's validity span, Add(r) again (model compared answer by answer; fills of more than 2048 salts as one bulk op on the driver's proved-equivalent fast pool). poolrace (child process): k in {2,4,16} goroutines call SaltPool.Add for the same fresh salt 50000 / 10^6 rounds each, re-aligned by a blocking barrier every 32 rounds; the race engine itself also runs in a child process so that a fatal runtime error (concurrent map access) is reported as a failure of that scenario. flood: the same through HandleStream with 2048 (quick) / 70000 (thorough, search) real handshakes on the fake clock. ts: 64 (word, clock) pairs per case over 64-bit boundary alphabets"
 	code := 0
 	testing.Main(func(pat, str string) (bool, error) { return true, nil }, []testing.InternalTest{{Name: "corr_c03", F: func(t *testing.T) {
 		e := &engine{o: o, rep: rep, t: t}
